@@ -23,8 +23,8 @@ func init() {
 			"C12.count: in the key loop every path from a member read to the success exit passes a limit comparison that covers that read (order independence of the verdict). " +
 			"C12.object: the members reach newSize as decoded by decodeValue / decodeUnit, which accept only a number resp. string token (null counts as wrongly typed) — C08.object under this property. C12.keyeq: a member is value / unit only when its lower-cased key equals the constant (C04.keys, strict: the normaliser is a function of the module evaluated byte class by byte class to A–Z ↦ a–z and nothing else; strings.ToLower also folds U+0130 and U+212A). C12.keys: lower-cased key switch against lower-case constants equal to the marshal keys; duplicate tests precede decoding and return the matching ErrDuplicated*; newOrError maps nil to ErrMissingValueKey/ErrMissingUnitKey; decodeValue/decodeUnit accept exactly json.Number/string; the default arm returns ErrUnexpectedKey iff RuleDisallowUnknownKeys else skips nested values with a depth counter. " +
 			"C12.all: the member loop is left for the success path only on the edge where More() reports no member left (otherwise later duplicates, unknown keys and the member count go unexamined and the verdict depends on member order). " +
-			"S-WRAP: sentinels bound to %w; errors of the object reader re-wrapped by newParseError.",
-		NotDecided:  []string{"encoding/json tokenisation itself", "numeric equality of results (C08)", "behaviour for inputs longer than MaxInputLength (C18)"},
+			"S-WRAP: sentinels bound to %w; errors of the object reader re-wrapped by newParseError. The skipper's nesting counter is decided as a transfer function per token class (scalar, {, [, }, ]): +1, +1, −1, −1, 0, the decreased value tested against zero with the zero side returning nil; the token domain of the gate includes JSON null (a nil token: refused as wrongly typed); the key normaliser is evaluated with the examined byte at every position up to the longest key.",
+		NotDecided:  []string{"encoding/json tokenisation itself", "numeric equality of results (C08)", "behaviour for inputs longer than MaxInputLength (C18)", "whether the object form should honour RuleDisableUnit (the property gates forms, not units inside the object; the library does not)"},
 		Assumptions: []string{"json.Decoder.Token/More contracts; Token returns io.EOF at end of input and a syntax error for a malformed continuation"},
 		Technique:   "must-pass-through/dominator rules, counter-slack path enumeration and decision-table extraction over go/ssa",
 	})
